@@ -133,8 +133,14 @@ def _(value: float):
 def sort_set_values(set_values):
     is_sorted = False
     try:
-        set_values = sorted(set_values)
-        is_sorted = True
+        sorted_values = sorted(set_values)
+        # Types like frozenset define only a partial order (`<` is the subset test).
+        # sorted() does not fail for them, but its result depends on the iteration
+        # order of the set (which depends on the hash seed).
+        # The result is only used if it is a chain a < b < c ...
+        if all(a < b for a, b in zip(sorted_values, sorted_values[1:])):
+            set_values = sorted_values
+            is_sorted = True
     except TypeError:
         pass
 
